@@ -39,6 +39,7 @@ DECIDING = {
     "tasks_cancelled_through_handle": "cancel() through the handle",
     "wait_finished_returns": "wait_finished() returns observed",
     "owner_left_with_tasks_running": "owner context left while tasks were running (must wait, not cancel)",
+    "tasks_spawned_during_teardown": "tasks spawned by a still-running task while the owning context was already being torn down",
     "exceptions_swallowed": "handler verdict truthy",
     "exceptions_propagated": "handler verdict falsy / no handler",
     "exceptions_from_task_context_teardown": "exception escaping through the teardown of the task's own context",
